@@ -38,8 +38,22 @@ var profC13 = ConcProfile{
 	MaxBlocks: 4, MaxBlockOps: 14, Pars: 2, CancelIn: 35, PerturbMax: 2, HoldPct: 25, SyncPct: 30, WriteBoost: 45,
 }
 
+// profC13Seq: clocked histories in which the same line is written in several
+// consecutive frames while the bars do not change (a frame can then be
+// byte-identical to the previous one).
+var profC13Seq = Profile{
+	MaxBars: 3, MinBars: 1, MaxSteps: 25, Refresh: []string{"manual", "autoinj"}, QLens: []int{-1},
+	Pop: 20, Rm: 30, AbortW: 1, TicksW: 6, Text: 3, RepeatText: 5, StaticTexts: true,
+	PlainDecors: 1, Fillers: []string{"tag", "nop"}, LateAdd: true,
+}
+
 func genC13(t *rapid.T) interface{} {
 	excludedKnown = 0
+	if rapid.IntRange(0, 3).Draw(t, "sequential") == 0 {
+		sc := genScenario(t, &profC13Seq)
+		vstat.Excluded(excludedKnown)
+		return sc
+	}
 	sc := genConcurrent(t, &profC13)
 	// a few late writes after Wait
 	n := rapid.IntRange(0, 3).Draw(t, "nlatewrites")
@@ -107,19 +121,53 @@ func runC13(ci interface{}) Result {
 	var ok []placed
 	overlapped, errdone := false, false
 	inProgram := len(tr.Writes) - len(tr.LateWrites)
+	// the same payload may be written several times (heartbeat lines): it must
+	// then be in the output exactly as many times as it was accepted
+	succ := map[string]int{}
+	for i := range tr.Writes[:inProgram] {
+		if w := &tr.Writes[i]; w.Err == nil && w.N == len(w.Text) {
+			succ[w.Text]++
+		}
+	}
+	// manual refresh: text accepted after the last frame the program asked for stays unflushed
+	tail := map[string]int{}
+	if !auto {
+		lastEnd := int64(0)
+		for _, e := range tr.Events {
+			if e.Point == "render.end" {
+				lastEnd = e.Seq
+			}
+		}
+		var lastBegin int64
+		for _, e := range tr.Events {
+			if e.Point == "render.begin" {
+				lastBegin = e.Seq
+			}
+		}
+		_ = lastEnd
+		for i := range tr.Writes[:inProgram] {
+			if w := &tr.Writes[i]; w.Err == nil && w.N == len(w.Text) && w.RetSeq > lastBegin {
+				tail[w.Text]++
+			}
+		}
+	}
+	repeated := false
 	for i := range tr.Writes[:inProgram] {
 		w := &tr.Writes[i]
 		payload := []byte(w.Text)
 		n := bytes.Count(all, payload)
 		switch {
 		case w.Err == nil && w.N == len(w.Text):
-			if n != 1 {
-				if n == 0 && !auto {
-					// manual refresh: text accepted after the last frame the program asked for stays unflushed
-					continue
-				}
-				r.Err, r.Kind = fmt.Errorf("Write(%q) reported success but its bytes occur %d times in the output (want exactly once)", w.Text, n), "count"
+			want := succ[w.Text]
+			if want > 1 {
+				repeated = true
+			}
+			if n > want || n < want-tail[w.Text] {
+				r.Err, r.Kind = fmt.Errorf("Write(%q) reported success %d time(s) but its bytes occur %d time(s) in the output", w.Text, want, n), "count"
 				return r
+			}
+			if n == 0 || want > 1 {
+				continue // nothing to place, or occurrences cannot be told apart
 			}
 			pos := bytes.Index(all, payload)
 			// at the start of a line: preceded by a newline, the start of a chunk, or the cursor controls
@@ -143,7 +191,7 @@ func runC13(ci interface{}) Result {
 			ok = append(ok, placed{w, pos})
 		case errors.Is(w.Err, mpb.ErrDone) && w.N == 0:
 			errdone = true
-			if n != 0 {
+			if succ[w.Text] == 0 && n != 0 {
 				r.Err, r.Kind = fmt.Errorf("Write(%q) returned (0, ErrDone) but its bytes are in the output", w.Text), "errdone-emitted"
 				return r
 			}
@@ -151,6 +199,9 @@ func runC13(ci interface{}) Result {
 			r.Err, r.Kind = fmt.Errorf("Write(%q) returned (%d, %v): neither success nor (0, ErrDone)", w.Text, w.N, w.Err), "result"
 			return r
 		}
+	}
+	if repeated {
+		r.Classes = append(r.Classes, "repeated-payload")
 	}
 	// the '#' scribble of a recycled buffer must never reach the output
 	if bytes.Contains(all, []byte("###")) {
